@@ -77,11 +77,11 @@ def record(P, start, mode, api, pre=None, ed=None, copy_after=False, nones=False
 
 
 def execute(c):
-    api = c.get("api", lib.vid(c) % 3)
+    api = c.get("api", lib.pick(c, "api", 3))
     events = []
     try:
         events = record(c["P"], c["start"], c["mode"], api, c.get("pre"), c.get("ed"), lib.vid(c) % 2 == 1, nones=c.get("nones", lib.vid(c) % 4 == 2),
-                        handles=(api != 0 and c.get("nones") is None and lib.vid(c) % 4 == 3), negkey=(lib.vid(c) % 2 == 0), forest=(lib.vid(c) % 5 == 1 and c.get("pre") is None))
+                        handles=(api != 0 and c.get("nones") is None and lib.vid(c) % 4 == 3), negkey=(lib.vid(c) % 2 == 0), forest=(lib.pick(c, "forest", 2) == 1 and c.get("pre") is None))
     except RecursionError:
         return {"events": [], "err": "RecursionError"}
     return {"events": events}
